@@ -593,6 +593,24 @@ pub fn run_tracker(case: &TrackerCase, opts: &DriveOpts) -> History {
                     let n = h.batch_size();
                     match consumer {
                         Consumer::Same => Res::Scenes(read_results(&h, n, i % 3 == 2)),
+                        Consumer::Other if n >= 2 && i % 2 == 0 => {
+                            // the handle is Clone: two consumer threads share the results of one batch
+                            rt::probe::hit("consumer_two_threads_share_one_batch");
+                            let sink = Arc::new(Mutex::new(vec![]));
+                            let mut js = vec![];
+                            for (part, hh) in [(n / 2, h.clone()), (n - n / 2, h)] {
+                                let s2 = sink.clone();
+                                js.push(rt::thread::spawn(move || {
+                                    let v = read_results(&hh, part, i % 3 == 2);
+                                    s2.lock().unwrap().extend(v);
+                                }));
+                            }
+                            for j in js {
+                                j.join().unwrap();
+                            }
+                            let got = std::mem::take(&mut *sink.lock().unwrap());
+                            Res::Scenes(got)
+                        }
                         Consumer::Other => {
                             let sink = Arc::new(Mutex::new(vec![]));
                             let s2 = sink.clone();
